@@ -17,17 +17,19 @@ P("C09",
              "arbitrary environment, unread input implies a pending tick/wake-up event of that component. Regression: c09_old_refuted "
              "(the two-connection / event-driven-relay topology whose run under the old guard ended with both queues empty and a "
              "deliverable message stranded), c09_ticknow_old_refuted, c09_witness_repaired_clean; the witness input stays in "
-             "corpus/C09 and in the directed set. c09_world_projects_partial (C09/Project.v): every run of the executable world model with ONE connection holding all "
-             "ports (any components/scripts/capacities) is a run of the abstract connection system, so the invariant and clause 1 carry over to it; the engine contract "
-             "this needs is proved to be an invariant of the world model (c09_engine_contract_invariant, C09/Contract.v: queues sorted, "
-             "nothing scheduled before the current time, component events primary / connection events secondary). PARTIAL: not proved "
-             "for several connections nor for the projection onto the draining-component system; there the link is by shared definitions.",
+             "corpus/C09 and in the directed set. c09_world_projects (C09/ProjectN.v, ContractN.v): for worlds with ANY number of connections (each port plugged into one), any "
+             "components/scripts/capacities, and every connection x, every run of the executable world model is a run of the abstract "
+             "connection system for x (x's ports as a sub-list of the global ports, x's scheduler, x's pending ticks), so the invariant "
+             "and clause 1 carry over to the executable model with no checked hypothesis: the engine contract (nothing dispatched before "
+             "the current time or past a pending tick; component events primary, connection events secondary) is proved an invariant of "
+             "the model's own queues (c09_engine_contract_invariant). c09_world_projects_one_connection is the special case. PARTIAL: the "
+             "projection onto the draining-component system (clause 2) is not proved; there the link is by shared definitions.",
   level_note="Trusted: Coq kernel + vm_compute; the Go harness (builds the topology with the real API, scripted Ticker / "
              "EventProcessor mirroring C09.Model.activate, engine BeforeEvent hook for the trace); the hand-written world model, tied "
              "by exact equality of the full (time, handler) trace and of every port's final state on 500 (quick) random topologies. "
              "The abstract connection-in-environment system of the invariant proof shares tick/port/scheduler definitions with the "
-             "executable model; that runs of the executable model are runs of it is a theorem for one-connection worlds "
-             "(c09_world_projects_partial) and by construction otherwise.",
+             "executable model; that runs of the executable model are runs of the abstract connection system is a theorem "
+             "(c09_world_projects); for the abstract draining-component system it is by construction.",
   assumptions=["all handlers run on the serial engine; clock periods divide 10^12 ps; times stay far below 2^64 (no wrap: C42)",
                "every port has an owner and is plugged into exactly one direct connection; port names are distinct",
                "scripted components only: a component's activation = fire due timers, drain, flush (C09/Model.v activate); "
